@@ -32,9 +32,11 @@ import (
 
 	"github.com/ipni/go-libipni/find/client"
 	"github.com/ipni/go-libipni/find/model"
+	"github.com/ipni/go-libipni/ingest/schema"
 	"github.com/libp2p/go-libp2p/core/peer"
 	"github.com/mr-tron/base58/base58"
 	"github.com/multiformats/go-multiaddr"
+	"github.com/multiformats/go-multihash"
 
 	"verif/harness/vlib"
 )
@@ -380,6 +382,65 @@ func (r *run) runH(env *hEnv, h *hScenario, emit bool) (failed string) {
 // refSecondOf: the second hash, from crypto/sha256 directly
 func refSecondOf(mh []byte) []byte { return newTable().refSecond(mh) }
 
+// sizeScenarios: values at and around every documented size limit (the limits are the
+// library's own constants, so the generator follows the source), responses with many
+// encrypted value keys, and many results.
+func sizeScenarios(rng *vlib.Rand, pool []pidInfo, thorough bool) []*hScenario {
+	maxMd, maxCtx := schema.MaxMetadataLen, schema.MaxContextIDLen
+	mdLens := []int{1, 2, 255, 256, 511, 512, 700, 767, 768, 791, 792, 793, 800, 900, 1000, maxMd - 2, maxMd - 1, maxMd}
+	ctxLens := []int{0, 1, maxCtx / 2, maxCtx - 1, maxCtx}
+	if thorough {
+		for n := 760; n <= maxMd; n += 3 {
+			mdLens = append(mdLens, n)
+		}
+	}
+	var out []*hScenario
+	newMh := func() string {
+		m, _ := multihash.Sum(rng.Bytes(16), multihash.SHA2_256, -1)
+		return hex.EncodeToString(m)
+	}
+	entry := func(p int, ctxLen, mdLen int) fEntry {
+		return fEntry{Pid: hex.EncodeToString([]byte(pool[p%len(pool)].ID)), Ctx: hex.EncodeToString(rng.Bytes(ctxLen)), Md: hex.EncodeToString(rng.Bytes(mdLen))}
+	}
+	k := 0
+	// one entry of every metadata size x a context-ID size, through every client configuration
+	for i, n := range mdLens {
+		for j := 0; j < 2; j++ {
+			mh := newMh()
+			row := fRow{Mh: mh, Groups: 1, Entries: []fEntry{entry(i+j, ctxLens[(i+2*j)%len(ctxLens)], n), entry(i+j+1, ctxLens[(i+j+1)%len(ctxLens)], 1+rng.Intn(20))}}
+			out = append(out, &hScenario{Kind: "hfind", Mode: (i + j) % 4, Prefix: []string{"", "/dh"}[k%2], Sc: findScenario{Kind: "find", Rows: []fRow{row}, Query: mh}})
+			k++
+		}
+	}
+	// many providers / contexts under one multihash: a large multihash response, many
+	// metadata requests, many results; a few of them with metadata at the limit
+	for _, n := range []int{8, 30, 80} {
+		mh := newMh()
+		row := fRow{Mh: mh, Groups: 1 + n%3}
+		for e := 0; e < n; e++ {
+			md := 1 + rng.Intn(30)
+			if e%9 == 4 {
+				md = maxMd - e%3
+			}
+			row.Entries = append(row.Entries, entry(e, e%(maxCtx+1), md))
+		}
+		for m := 0; m < 2; m++ {
+			out = append(out, &hScenario{Kind: "hfind", Mode: []int{0, 1, 2, 3}[(n+m)%4], Prefix: "", Sc: findScenario{Kind: "find", Rows: []fRow{row}, Query: mh}})
+		}
+	}
+	// every entry at both limits at once
+	{
+		mh := newMh()
+		row := fRow{Mh: mh, Groups: 2}
+		for e := 0; e < 6; e++ {
+			row.Entries = append(row.Entries, entry(e, maxCtx, maxMd))
+		}
+		out = append(out, &hScenario{Kind: "hfind", Mode: 0, Sc: findScenario{Kind: "find", Rows: []fRow{row}, Query: mh}},
+			&hScenario{Kind: "hfind", Mode: 1, Prefix: "/a/b", Sc: findScenario{Kind: "find", Rows: []fRow{row}, Query: mh}})
+	}
+	return out
+}
+
 func hSig(h *hScenario) string {
 	return fmt.Sprintf("h%s:mode%d:prefix=%q", scenarioSig(&h.Sc), h.Mode, h.Prefix)
 }
@@ -450,10 +511,15 @@ func (r *run) hfindCases() {
 		}
 	}
 	fails := 0
+	var scenarios []*hScenario
 	for i := 0; i < r.c.Pick(200, 3000); i++ {
 		mode := i % 4
 		h := &hScenario{Kind: "hfind", Mode: mode, Prefix: []string{"", "/dh", "/a/b"}[i%3]}
 		h.Sc = *r.genScenario(rng, env.pool, i%2 == 1, mode != 0)
+		scenarios = append(scenarios, h)
+	}
+	scenarios = append(scenarios, sizeScenarios(rng, env.pool, r.c.Thorough())...)
+	for i, h := range scenarios {
 		msg := r.runH(env, h, true)
 		r.c.Nontrivial("h" + fmt.Sprint(i))
 		if msg != "" {
